@@ -345,6 +345,29 @@ def run(prog, rep):
                           f'for a field that has a {what} validator there is a path to the store on which the validator is not applied '
                           f'(the scalar or the list form of the value goes unchecked)')
     # R6: range validators order numbers, not text
+    # R7: model-element property setters that keep a local copy store it only after the validating write succeeded
+    rep.rule('R7', 'a model-element setter caches the new value only after the validating write to the model', floor=1)
+    me = prog.cls('fim.user.model_element:ModelElement')
+    for pname, acc in sorted(me.properties.items()):
+        st_fn = acc.get('setter')
+        if st_fn is None:
+            continue
+        stores = [a for a in walk_no_nested(st_fn) if isinstance(a, ast.Assign) and any(isinstance(t, ast.Attribute) and isinstance(t.value, ast.Name) and
+                                                                                       t.value.id == 'self' for t in a.targets)]
+        writes = [c for c in walk_no_nested(st_fn) if isinstance(c, ast.Call) and call_name(c) in ('set_property', 'set_properties')]
+        if not stores or not writes:
+            continue
+        scfg = CFG(st_fn)
+        for a in stores:
+            an = flow.node_of(scfg, a)
+            for w in writes:
+                wn = flow.node_of(scfg, w)
+                early = an is not None and wn is not None and an is not wn and scfg.paths_avoiding(an, wn, set())
+                rep.instance('R7', f'ModelElement.{pname} setter: {norm(a, 40)} before {norm(w, 40)}: {early}')
+                if early:
+                    rep.violation('R7', loc(me.module, a), f'ModelElement.{pname}.setter', f'{norm(a, 50)} precedes the validating write',
+                                  f'the setter stores the new value on the handle and only then calls {call_name(w)} (which validates and may raise): '
+                                  f'after a rejected assignment the handle reports the invalid value although the model still holds the old one')
     rep.rule('R6', 'range validators compare numeric values', floor=5)
 
     def numeric(e):
@@ -611,6 +634,8 @@ def _holds_labels(cls):
 
 CL = 'fim/slivers/capacities_labels.py'
 MUTANTS = [
+    {'name': 'name-cached-before-validation', 'file': 'fim/user/model_element.py', 'rule': 'R7',
+     'find': "            self.set_property('name', value)\n        self._name = value\n", 'replace': "            self._name = value\n            self.set_property('name', value)\n        self._name = value\n"},
     {'name': 'labels-scalar-fullmatch-to-match', 'file': CL, 'rule': 'R1',
      'find': 'matches = re.fullmatch(self.VALIDATORS[k][0], v)', 'replace': "matches = re.match('^' + self.VALIDATORS[k][0] + '$', v)"},
     {'name': 'tags-fullmatch-to-match', 'file': 'fim/slivers/tags.py', 'rule': 'R1',
